@@ -4,9 +4,11 @@
 package sync
 
 import (
+	"reflect"
 	rsync "sync"
 
 	"github.com/valyala/fasthttp/internal/verif/mcrt"
+	"unsafe"
 )
 
 type Locker = rsync.Locker
@@ -15,6 +17,8 @@ type Locker = rsync.Locker
 type epochState struct{ ep uint64 }
 
 // stale reports whether the object was last used in an earlier execution and must be reset.
+//
+//go:norace
 func (e *epochState) stale(w *mcrt.World) bool {
 	ep := w.Epoch()
 	if e.ep == ep {
@@ -29,8 +33,10 @@ type Mutex struct {
 	real   rsync.Mutex
 	es     epochState
 	locked bool
+	hb     int64 // race builds: address carrying the unlock -> lock happens-before edge
 }
 
+//go:norace
 func (m *Mutex) Lock() {
 	w := mcrt.W()
 	if w == nil {
@@ -45,8 +51,10 @@ func (m *Mutex) Lock() {
 	}
 	w.Point("mutex.lock", func() bool { return !m.locked })
 	m.locked = true
+	mcrt.RaceAcquire(unsafe.Pointer(&m.hb))
 }
 
+//go:norace
 func (m *Mutex) TryLock() bool {
 	w := mcrt.W()
 	if w == nil {
@@ -63,9 +71,11 @@ func (m *Mutex) TryLock() bool {
 		return false
 	}
 	m.locked = true
+	mcrt.RaceAcquire(unsafe.Pointer(&m.hb))
 	return true
 }
 
+//go:norace
 func (m *Mutex) Unlock() {
 	w := mcrt.W()
 	if w == nil {
@@ -81,6 +91,7 @@ func (m *Mutex) Unlock() {
 	if !m.locked {
 		w.Fail("fatal error: sync: unlock of unlocked mutex")
 	}
+	mcrt.RaceRelease(unsafe.Pointer(&m.hb))
 	m.locked = false
 	// a point *after* the release: code that follows an Unlock without further synchronisation (a racy refactoring)
 	// can then be overtaken by the threads the Unlock released
@@ -92,14 +103,18 @@ type RWMutex struct {
 	es      epochState
 	writer  bool
 	readers int
+	hbW     int64 // writer unlock -> any lock
+	hbR     int64 // reader unlocks -> writer lock
 }
 
+//go:norace
 func (m *RWMutex) reset(w *mcrt.World) {
 	if m.es.stale(w) {
 		m.writer, m.readers = false, 0
 	}
 }
 
+//go:norace
 func (m *RWMutex) Lock() {
 	w := mcrt.W()
 	if w == nil {
@@ -112,8 +127,11 @@ func (m *RWMutex) Lock() {
 	m.reset(w)
 	w.Point("rwmutex.lock", func() bool { return !m.writer && m.readers == 0 })
 	m.writer = true
+	mcrt.RaceAcquire(unsafe.Pointer(&m.hbW))
+	mcrt.RaceAcquire(unsafe.Pointer(&m.hbR))
 }
 
+//go:norace
 func (m *RWMutex) Unlock() {
 	w := mcrt.W()
 	if w == nil {
@@ -127,9 +145,11 @@ func (m *RWMutex) Unlock() {
 	if !m.writer {
 		w.Fail("fatal error: sync: Unlock of unlocked RWMutex")
 	}
+	mcrt.RaceRelease(unsafe.Pointer(&m.hbW))
 	m.writer = false
 }
 
+//go:norace
 func (m *RWMutex) RLock() {
 	w := mcrt.W()
 	if w == nil {
@@ -142,8 +162,10 @@ func (m *RWMutex) RLock() {
 	m.reset(w)
 	w.Point("rwmutex.rlock", func() bool { return !m.writer })
 	m.readers++
+	mcrt.RaceAcquire(unsafe.Pointer(&m.hbW))
 }
 
+//go:norace
 func (m *RWMutex) RUnlock() {
 	w := mcrt.W()
 	if w == nil {
@@ -157,14 +179,19 @@ func (m *RWMutex) RUnlock() {
 	if m.readers <= 0 {
 		w.Fail("fatal error: sync: RUnlock of unlocked RWMutex")
 	}
+	mcrt.RaceReleaseMerge(unsafe.Pointer(&m.hbR))
 	m.readers--
 }
 
+//go:norace
 func (m *RWMutex) RLocker() Locker { return (*rlocker)(m) }
 
 type rlocker RWMutex
 
-func (r *rlocker) Lock()   { (*RWMutex)(r).RLock() }
+//go:norace
+func (r *rlocker) Lock() { (*RWMutex)(r).RLock() }
+
+//go:norace
 func (r *rlocker) Unlock() { (*RWMutex)(r).RUnlock() }
 
 type Once struct {
@@ -172,8 +199,10 @@ type Once struct {
 	es      epochState
 	done    bool
 	running bool
+	hb      int64
 }
 
+//go:norace
 func (o *Once) Do(f func()) {
 	w := mcrt.W()
 	if w == nil {
@@ -188,22 +217,29 @@ func (o *Once) Do(f func()) {
 	}
 	w.Point("once.do", func() bool { return !o.running })
 	if o.done {
+		mcrt.RaceAcquire(unsafe.Pointer(&o.hb))
 		return
 	}
 	o.running = true
-	defer func() {
-		o.done = true
-		o.running = false
-	}()
+	defer o.finish() // a method, not a closure: closures are not covered by //go:norace
 	f()
+}
+
+//go:norace
+func (o *Once) finish() {
+	mcrt.RaceRelease(unsafe.Pointer(&o.hb))
+	o.done = true
+	o.running = false
 }
 
 type WaitGroup struct {
 	real rsync.WaitGroup
 	es   epochState
 	n    int
+	hb   int64
 }
 
+//go:norace
 func (g *WaitGroup) Add(delta int) {
 	w := mcrt.W()
 	if w == nil {
@@ -216,14 +252,19 @@ func (g *WaitGroup) Add(delta int) {
 	if g.es.stale(w) {
 		g.n = 0
 	}
+	if delta < 0 {
+		mcrt.RaceReleaseMerge(unsafe.Pointer(&g.hb))
+	}
 	g.n += delta
 	if g.n < 0 {
 		w.Fail("panic: sync: negative WaitGroup counter")
 	}
 }
 
+//go:norace
 func (g *WaitGroup) Done() { g.Add(-1) }
 
+//go:norace
 func (g *WaitGroup) Wait() {
 	w := mcrt.W()
 	if w == nil {
@@ -237,8 +278,10 @@ func (g *WaitGroup) Wait() {
 		g.n = 0
 	}
 	w.Point("waitgroup.wait", func() bool { return g.n == 0 })
+	mcrt.RaceAcquire(unsafe.Pointer(&g.hb))
 }
 
+//go:norace
 func (g *WaitGroup) Go(f func()) {
 	g.Add(1)
 	mcrt.Go(func() {
@@ -256,6 +299,7 @@ type Pool struct {
 	items []any
 }
 
+//go:norace
 func (p *Pool) Get() any {
 	w := mcrt.W()
 	if w == nil {
@@ -277,6 +321,9 @@ func (p *Pool) Get() any {
 		x := p.items[n-1]
 		p.items[n-1] = nil
 		p.items = p.items[:n-1]
+		if a := poolAddr(x); a != nil {
+			mcrt.RaceAcquire(a)
+		}
 		return x
 	}
 	if p.New != nil {
@@ -285,6 +332,7 @@ func (p *Pool) Get() any {
 	return nil
 }
 
+//go:norace
 func (p *Pool) Put(x any) {
 	w := mcrt.W()
 	if w == nil {
@@ -297,6 +345,9 @@ func (p *Pool) Put(x any) {
 	if w.Aborting() || x == nil {
 		return
 	}
+	if a := poolAddr(x); a != nil {
+		mcrt.RaceReleaseMerge(a)
+	}
 	p.items = append(p.items, x)
 }
 
@@ -308,6 +359,7 @@ type Map struct {
 	vals map[any]any
 }
 
+//go:norace
 func (m *Map) in(w *mcrt.World) bool {
 	if w == nil {
 		return false
@@ -318,6 +370,7 @@ func (m *Map) in(w *mcrt.World) bool {
 	return true
 }
 
+//go:norace
 func (m *Map) Load(k any) (any, bool) {
 	w := mcrt.W()
 	if !m.in(w) {
@@ -330,6 +383,7 @@ func (m *Map) Load(k any) (any, bool) {
 	return v, ok
 }
 
+//go:norace
 func (m *Map) Store(k, v any) {
 	w := mcrt.W()
 	if !m.in(w) {
@@ -345,6 +399,7 @@ func (m *Map) Store(k, v any) {
 	m.vals[k] = v
 }
 
+//go:norace
 func (m *Map) LoadOrStore(k, v any) (any, bool) {
 	w := mcrt.W()
 	if !m.in(w) {
@@ -361,6 +416,7 @@ func (m *Map) LoadOrStore(k, v any) (any, bool) {
 	return v, false
 }
 
+//go:norace
 func (m *Map) Delete(k any) {
 	w := mcrt.W()
 	if !m.in(w) {
@@ -381,6 +437,7 @@ func (m *Map) Delete(k any) {
 	}
 }
 
+//go:norace
 func (m *Map) Range(f func(k, v any) bool) {
 	w := mcrt.W()
 	if !m.in(w) {
@@ -400,4 +457,34 @@ func (m *Map) Range(f func(k, v any) bool) {
 			return
 		}
 	}
+}
+
+// poolAddr returns the address used for the Put -> Get happens-before edge of one pooled object (its data pointer
+// when the object is a pointer; nil otherwise).
+//
+//go:norace
+func poolAddr(x any) unsafe.Pointer {
+	if !mcrt.RaceOn {
+		return nil
+	}
+	type eface struct{ typ, data unsafe.Pointer }
+	e := (*eface)(unsafe.Pointer(&x))
+	if e.data == nil {
+		return nil
+	}
+	if k := reflectKind(x); !k {
+		return nil
+	}
+	return e.data
+}
+
+// reflectKind reports whether x holds a pointer (so that its interface data word is the pointer itself).
+//
+//go:norace
+func reflectKind(x any) bool {
+	switch reflect.TypeOf(x).Kind() {
+	case reflect.Ptr, reflect.UnsafePointer:
+		return true
+	}
+	return false
 }
